@@ -98,6 +98,26 @@ def gen_cases(rng, tier):
                    "cs_kind": "cont", "n_workers": 2, "max_events": 90, "style": "distinct", "p_fail": 0, "max_t": 9,
                    "extra": {"num_init_random": 3, "rung_increment": 1,
                              "search_options": {"max_size_data_for_model": 12, "opt_maxiter": 5, "opt_nstarts": 1, "num_init_candidates": 5}}}
+    # (round l) restricted random search whose list holds initial configurations, twins in fresh processes under different hash seeds;
+    # twins created from ONE list of initial configurations; a searcher OBJECT without a seed of its own under a seeded scheduler
+    for i in range(3 if tier == "quick" else 12):
+        yield {"kind": "hashseed", "name": "fifo-random-rc", "sched_seed": rng.randrange(10 ** 6), "seed": rng.randrange(10 ** 9),
+               "cs_kind": rng.choice(["mixed", "finite"]), "n_workers": 3, "max_events": 40, "style": "distinct", "p_fail": 0.02, "max_t": 3,
+               "extra": {"restrict_n": rng.randint(12, 30), "restrict_seed": rng.randrange(1000), "p2e_from_restrict": rng.randint(1, 3)}}
+    for i in range(4 if tier == "quick" else 24):
+        name = ["fifo-random", "hb-stopping", "hb-promotion", "fifo-random"][i % 4]
+        yield {"kind": "inproc", "name": name, "sched_seed": rng.randrange(10 ** 6), "seed": rng.randrange(10 ** 9),
+               "cs_kind": rng.choice(["mixed", "cont"]), "n_workers": rng.randint(1, 4), "max_events": 60, "style": "distinct",
+               "p_fail": 0, "max_t": 3 if name.startswith("fifo-") else 9,
+               "extra": ({"brackets": 2} if name.startswith("hb-") else {}), "shared_p2e": rng.randint(2, 4),
+               "perturb_seed": rng.randrange(10 ** 6)}
+    for i in range(4 if tier == "quick" else 24):
+        name = ["hb-stopping", "fifo-random", "hb-promotion", "hb-stopping"][i % 4]
+        yield {"kind": "inproc", "name": name, "sched_seed": rng.randrange(10 ** 6), "seed": rng.randrange(10 ** 9),
+               "cs_kind": rng.choice(["mixed", "cont"]), "n_workers": rng.randint(1, 4), "max_events": 60, "style": "distinct",
+               "p_fail": 0, "max_t": 3 if name.startswith("fifo-") else 9,
+               "extra": dict({"brackets": 2} if name.startswith("hb-") else {}, searcher_object=True),
+               "perturb_seed": rng.randrange(10 ** 6)}
     # GP searchers whose surrogate fit is restarted from randomised points (opt_nstarts = 2, the default), twins in fresh
     # processes with different hash seeds
     for i in range(2 if tier == "quick" else 8):
@@ -149,6 +169,12 @@ def run_impl(spec):
             rc = [s0.get_config(trial_id=str(i_)) for i_ in range(spec["extra"]["restrict_n"])]
             rc0 = [dict(c_) for c_ in rc]  # (the independent instance gets a list of its own)
             spec = dict(spec, extra=dict(spec["extra"], restrict=rc))  # ONE list object for the two twins
+        if spec.get("shared_p2e"):
+            # fully specified, pairwise distinct initial configurations: ONE list object for every instance created below
+            p2e = g.restrict_list(g.config_space(spec["cs_kind"], spec["max_t"]), spec["shared_p2e"], spec["seed"] % 1000)
+            p2e = [c_ for i_, c_ in enumerate(p2e) if c_ not in p2e[:i_]]
+            spec = dict(spec, extra=dict(spec["extra"], p2e=p2e))
+            hist["twins-from-one-list-of-initial-configurations"] = 1
         with contextlib.redirect_stdout(io.StringIO()):
             if spec.get("np_seed"):
                 # the seed is an integer of numpy (for seed in np.arange(n), a seed read from an array): the same experiment
@@ -179,6 +205,9 @@ def run_impl(spec):
                 g.drive(other, dict(ospec, max_events=min(60, spec["max_events"])))
             except Exception:  # noqa
                 pass
+            # (the global generators are somewhere else when the second twin is created)
+            np.random.seed(prng.randrange(2 ** 31))
+            random.seed(prng.randrange(2 ** 31))
             try:
                 b_s = g.make_scheduler(name, "min", spec["sched_seed"], spec["cs_kind"], spec["max_t"], spec["extra"])
             except Exception as e:  # noqa: the first instance was created from the same arguments without complaint
